@@ -209,6 +209,10 @@ pub fn build(s: &C10Scn) -> WorldSys {
 	sys.dev = s.dev.clone();
 	sys.crash_nodes = s.crash_nodes.clone();
 	sys.settle_on_chain = true;
+	if s.name.contains("handler-fails") {
+		// the sender's event handler fails on terminal payment events throughout (until nothing else is left to do)
+		sys.w.fail_terminal[0] = true;
+	}
 	for i in s.async_from_start.iter() {
 		sys.async_on[*i] = true;
 	}
@@ -403,6 +407,34 @@ pub fn scenarios(tier: Tier) -> Vec<C10Scn> {
 			crash_nodes: vec![1],
 			async_from_start: vec![],
 			deferred: vec![1],
+		});
+		// "events documented as persistent are re-delivered until handled": the sender's handler accepts
+		// PaymentPathFailed but fails on the terminal event; the HTLC of a channel the sender closed times out on
+		// chain; the manager stops being written at any point and the node crashes at any step of the resolution
+		v.push(C10Scn {
+			name: format!("{}-ab-hold-forceclose-timeout-handler-fails-lagging-manager-a", n),
+			ct,
+			nodes: 2,
+			ops: vec![
+				Op::Send { from: 0, hops: vec![(1, 0)], amount_msat: 50_000_000, policy: ClaimPolicy::Hold },
+				Op::ForceClose { node: 0, chan: 0 },
+			],
+			dev: Deviations {
+				reorder: None,
+				early_op: None,
+				crash: Some(1),
+				crash_inside: None,
+				complete_reorder: None,
+				hold_manager: Some(1),
+				early_release: None,
+				crash_after_finish_only: true,
+				crash_choices_max: Some(2),
+				..Deviations::default()
+			},
+			k: 2,
+			crash_nodes: vec![0],
+			async_from_start: vec![],
+			deferred: vec![],
 		});
 		// asynchronous writes in flight at the crash: every candidate snapshot
 		v.push(C10Scn {
